@@ -377,3 +377,8 @@ def run(ctx):
         check_signer_and_only(cfg, crate, rep)
         check_err(cfg, crate, rep)
         check_table(cfg, crate, rep)
+        if cfg != "K3":
+            # a loaded key signs with the back-end constant its loader chose: the (algorithm, constant) pairing of every
+            # loader arm is a necessary condition of "the signature verifies under the declared algorithm"
+            import c11
+            common.borrow_rules(rep, lambda: c11.check_pairs(cfg, crate, rep, {}), "C11.", "C01.keys")
